@@ -679,7 +679,7 @@ let handle (fields : string list) : string * string =
   | "crash" :: what :: _impl :: [] -> ("still-serving", "fail:process-aborted-" ^ what)
   | "lifecycle" :: _transport :: point :: _cause :: impl :: [] ->
     (* the theorem: whatever was held, everything is released after the packet loop returned *)
-    let with_backend = List.mem point ["channel"; "data-c2h"; "data-h2c"; "data-both"] in
+    let with_backend = List.mem point ["channel"; "data-c2h"; "data-h2c"; "data-both"] || _cause = "out-gone-before-channel-create" in
     let m = Printf.sprintf "backend=%s client=closed registry=ok gauges=ok goroutines=ok" (if with_backend then "released" else "none") in
     (m, if m = impl then "ok"
         else begin
